@@ -1,6 +1,9 @@
 //! C14 - dependencies are attributed to the asset being loaded, and only to it.
 
-use super::hot::{self, GenOpts, Runner, WCase};
+use super::hot::{self, DirOp, GenOpts, Runner, WCase};
+use crate::memsrc::MemSource;
+use assets_manager::{asset::DirLoadable, source::Source, AnyCache, AssetCache, SharedString};
+use std::collections::BTreeMap;
 use crate::engine::{from_case, to_case, Outcome, Plan, Prop, Tier};
 use crate::memsrc::{OwnedEntry, Variant};
 use crate::world::{affected, AKey, Ev, Kind, SENTINEL};
@@ -9,6 +12,148 @@ use serde_json::Value;
 use std::collections::BTreeSet;
 
 pub struct C14;
+
+/// A type whose ids are selected from a manifest file inside the directory (`<dir>.manifest`, extension
+/// `mf`, one name per line), not by listing the directory: only the crate's own RecursiveDirectory load
+/// reads the directory itself (to find the sub-directories).
+pub struct Man;
+impl DirLoadable for Man {
+    fn select_ids(cache: AnyCache, id: &SharedString) -> std::io::Result<Vec<SharedString>> {
+        let source = cache.raw_source();
+        let text = String::from_utf8_lossy(source.read(&format!("{id}.manifest"), "mf")?.as_ref()).to_string();
+        Ok(text.lines().filter(|l| !l.is_empty()).map(|l| SharedString::from(format!("{id}.{l}"))).collect())
+    }
+}
+
+const DIR_NAMES: [&str; 4] = ["a", "b", "c", "d"];
+const ID_NAMES: [&str; 5] = ["one", "two", "three", "four", "five"];
+
+fn manifest_bytes(ids: &std::collections::BTreeSet<String>) -> Vec<u8> {
+    ids.iter().map(|s| format!("{s}\n")).collect::<String>().into_bytes()
+}
+
+/// After every operation (notified as a filesystem watcher would) and a barrier, the cached recursive
+/// directory of the root and the plain directory of every existing directory list exactly what the model says.
+fn custom_dirloadable(ops: &[DirOp], out: &mut Outcome) {
+    let src = MemSource::new(true);
+    super::c02::install_sentinel(&src);
+    let mut model: BTreeMap<String, std::collections::BTreeSet<String>> = BTreeMap::new();
+    let names = |ids: &[u8]| -> std::collections::BTreeSet<String> { ids.iter().map(|i| ID_NAMES[*i as usize % ID_NAMES.len()].to_string()).collect() };
+    model.insert("lvl".into(), names(&[0]));
+    model.insert("lvl.a".into(), names(&[1]));
+    {
+        let mut t = src.tree();
+        for (d, ids) in &model {
+            t.mkdirs(d);
+            t.put(&format!("{d}.manifest"), "mf", manifest_bytes(ids), Variant::Buffer);
+        }
+    }
+    let cache = AssetCache::with_source(src.handle());
+    let mut version = 0u32;
+    let root = match cache.load_rec_dir::<Man>("lvl") {
+        Ok(h) => h,
+        Err(e) => {
+            out.fail("harness", format!("custom DirLoadable: initial load_rec_dir failed: {e}"));
+            return;
+        }
+    };
+    let expected_rec = |model: &BTreeMap<String, std::collections::BTreeSet<String>>| -> Vec<String> {
+        let mut v: Vec<String> = model.iter().flat_map(|(d, ids)| ids.iter().map(move |i| format!("{d}.{i}"))).collect();
+        v.sort();
+        v.dedup();
+        v
+    };
+    // Re-creating a directory that was removed runs into known finding D11 (reported under C05): the parent
+    // learns the dependency on the stale cached child anew in the very pass that reloads the child.
+    // Such steps are excluded by construction and counted.
+    let mut removed: std::collections::BTreeSet<String> = Default::default();
+    for (step, op) in ops.iter().enumerate() {
+        let dirs: Vec<String> = model.keys().cloned().collect();
+        let mut notes: Vec<OwnedEntry> = Vec::new();
+        let parent_of = |d: &str| crate::memsrc::parent_of(d).unwrap_or("").to_string();
+        let desc;
+        match op {
+            DirOp::AddDir { parent, name, ids } => {
+                let p = &dirs[*parent as usize % dirs.len()];
+                let d = format!("{p}.{}", DIR_NAMES[*name as usize % DIR_NAMES.len()]);
+                let ids = names(ids);
+                if removed.contains(&d) {
+                    out.excluded += 1;
+                    continue;
+                }
+                let existed = model.contains_key(&d);
+                desc = format!("{} {d:?} with manifest {ids:?}", if existed { "rewrite the manifest of" } else { "create directory" });
+                {
+                    let mut t = src.tree();
+                    t.mkdirs(&d);
+                    t.put(&format!("{d}.manifest"), "mf", manifest_bytes(&ids), Variant::Buffer);
+                }
+                model.insert(d.clone(), ids);
+                if !existed {
+                    notes.push(OwnedEntry::Dir(d.clone()));
+                    notes.push(OwnedEntry::Dir(p.clone()));
+                    notes.push(OwnedEntry::Dir(d.clone()));
+                }
+                notes.push(OwnedEntry::File(format!("{d}.manifest"), "mf".into()));
+            }
+            DirOp::RemoveDir { dir } => {
+                let leaves: Vec<&String> = dirs.iter().filter(|d| *d != "lvl" && !dirs.iter().any(|o| parent_of(o) == **d)).collect();
+                if leaves.is_empty() {
+                    continue;
+                }
+                let d = leaves[*dir as usize % leaves.len()].clone();
+                desc = format!("remove directory {d:?}");
+                {
+                    let mut t = src.tree();
+                    t.remove(&format!("{d}.manifest"), "mf");
+                    t.dirs.remove(&d);
+                }
+                model.remove(&d);
+                removed.insert(d.clone());
+                notes.push(OwnedEntry::File(format!("{d}.manifest"), "mf".into()));
+                notes.push(OwnedEntry::Dir(d.clone()));
+                notes.push(OwnedEntry::Dir(parent_of(&d)));
+            }
+            DirOp::EditManifest { dir, ids } => {
+                let d = dirs[*dir as usize % dirs.len()].clone();
+                let ids = names(ids);
+                desc = format!("rewrite the manifest of {d:?} as {ids:?}");
+                src.tree().put(&format!("{d}.manifest"), "mf", manifest_bytes(&ids), Variant::Buffer);
+                model.insert(d.clone(), ids);
+                notes.push(OwnedEntry::File(format!("{d}.manifest"), "mf".into()));
+            }
+        }
+        for n in &notes {
+            src.send(n);
+        }
+        if !super::c02::sentinel_barrier(&cache, &src, &mut version) {
+            out.fail("reload-lost", format!("custom DirLoadable, step {step} ({desc}): the sentinel's notified change was never applied"));
+            return;
+        }
+        let mut got: Vec<String> = root.read().ids().map(|s| s.to_string()).collect();
+        got.sort();
+        let want = expected_rec(&model);
+        if got != want {
+            out.fail(
+                "custom-dirloadable-stale",
+                format!("custom DirLoadable (ids selected from a manifest file), step {step} ({desc}, notified as {notes:?}): the recursive directory \"lvl\" lists {got:?}, the tree holds {want:?}"),
+            );
+            return;
+        }
+        for (d, ids) in &model {
+            if let Some(h) = cache.get_cached::<assets_manager::Directory<Man>>(d) {
+                let mut g: Vec<String> = h.read().ids().map(|s| s.to_string()).collect();
+                g.sort();
+                let w: Vec<String> = ids.iter().map(|i| format!("{d}.{i}")).collect();
+                if g != w {
+                    out.fail("custom-dirloadable-stale", format!("custom DirLoadable, step {step} ({desc}): the directory {d:?} lists {g:?}, its manifest says {w:?}"));
+                    return;
+                }
+            }
+        }
+    }
+    out.label("custom-dirloadable-history");
+}
 
 fn opts(tier: Tier) -> GenOpts {
     GenOpts { blocks: 6, unnotified: false, max_nodes: if tier == Tier::Quick { 5 } else { 7 }, max_steps: 1, faults: false }
@@ -24,6 +169,8 @@ impl Prop for C14 {
          and caught panics, loaded at top level; then, for EVERY file and directory any load touched (through either cache), one step that edits exactly that entry in the main source and notifies exactly it. \
          Oracle: the set of cached handles whose reload id grew equals exactly the closure, in the shadow dependency graph, of the assets whose own load touched that entry on the loading thread, through this cache, outside no_record \
          (reads by a nested reloadable asset belong to the nested asset); and the recording token sampled by the recipe interpreter around every nested operation / no_record block / caught panic is unchanged (0 inside no_record). \
+         A third of the cases continue with a history (create / remove directories, rewrite manifests, notified as a watcher would) over a tree whose assets are selected by a custom DirLoadable reading a manifest file: \
+         after every step the cached recursive directory and every cached directory list exactly what the tree holds (the crate's own RecursiveDirectory load is what reads the directory itself). \
          non-trivial = some touched entry was only read untracked (no_record / thread / other cache) and editing it reloads nothing; distinct = different canonical JSON"
             .into()
     }
@@ -52,6 +199,19 @@ impl Prop for C14 {
                     }
                 }
                 c.steps.clear();
+                c
+            })
+            .prop_flat_map(|c| {
+                let ids = || prop::collection::vec(0u8..5, 0..4);
+                let op = prop_oneof![
+                    3 => (any::<u8>(), 0u8..4, ids()).prop_map(|(parent, name, ids)| DirOp::AddDir { parent, name, ids }),
+                    2 => any::<u8>().prop_map(|dir| DirOp::RemoveDir { dir }),
+                    2 => (any::<u8>(), ids()).prop_map(|(dir, ids)| DirOp::EditManifest { dir, ids }),
+                ];
+                (Just(c), prop_oneof![2 => Just(Vec::new()), 1 => prop::collection::vec(op, 1..8)])
+            })
+            .prop_map(|(mut c, dir_ops)| {
+                c.dir_ops = dir_ops;
                 to_case(&c)
             })
             .boxed()
@@ -173,10 +333,14 @@ impl Prop for C14 {
             out.label("touched>=6");
         }
         let _ = Kind::Leaf;
+        if !c.dir_ops.is_empty() && !out.failed() {
+            drop(r);
+            custom_dirloadable(&c.dir_ops, &mut out);
+        }
         out
     }
 
     fn required_labels(&self) -> Vec<&'static str> {
-        vec!["untracked-read-edit-reloads-nothing", "no_record", "thread", "caught-panic"]
+        vec!["untracked-read-edit-reloads-nothing", "no_record", "thread", "caught-panic", "custom-dirloadable-history"]
     }
 }
